@@ -95,9 +95,25 @@ def lookupQuery (t : CState ρ) (j : Nat) (now : Ms) (qu : Bool) : Except PyExc 
       | .error e => .error e
       | .ok pk => .ok (t, [pk])
 
+/-- the loop's clock never reads earlier than the creation time of a cached record (`created = msg.now` of a datagram
+received before): part of the loop axioms `WFSched`.  A timer block with a clock reading that violates it is not a block of
+a run; like a fire that is not enabled it is mapped to a no-op. -/
+def clockOK (c : Cache) (t : Ms) : Bool := c.allRecs.all (fun r => decide (r.created ≤ t))
+
 def timerStep (t : CState ρ) : TimerBlock → Except PyExc (CState ρ × List (List Bytes))
-  | .browserFire i done now => browserFire lower sz t i done now
-  | .lookupQuery j now qu => lookupQuery lower t j now qu
+  | .browserFire i done now =>
+    if clockOK t.cache (QueryGen.browserAnswerTime now) then browserFire lower sz t i done now else .ok (t, [])
+  | .lookupQuery j now qu =>
+    if clockOK t.cache (QueryGen.lookupAnswerTime now) then lookupQuery lower t j now qu else .ok (t, [])
+
+/-- the other blocks of the composite: the modelled timer blocks, or a block of the residue -/
+def otherT {β : Type} (other' : CState ρ → β → Except PyExc (CState ρ × List (COut ω))) :
+    CState ρ → TimerBlock ⊕ β → Except PyExc (CState ρ × List (COut ω))
+  | d, .inl tb =>
+    match timerStep lower sz d tb with
+    | .error e => .error e
+    | .ok (d', pks) => .ok (d', pks.map COut.sent)
+  | d, .inr b => other' d b
 
 end
 
